@@ -993,6 +993,25 @@ func c01Key(sc *c01Script, frames []c01Frame, glog []c01Pub) string {
 	if !bad {
 		return "ok"
 	}
+	// a hole strictly between two publications that are BOTH inside the subscribe reply is
+	// the merge's own gap check failing (not the known unanchored-reply finding)
+	for _, f := range frames {
+		if f.K != "subreply" {
+			continue
+		}
+		for k := 1; k < len(f.Pubs); k++ {
+			a, b := f.Pubs[k-1].Off, f.Pubs[k].Off
+			if b <= a {
+				return "reply-not-sorted"
+			}
+			for o := a + 1; o < b; o++ {
+				if !withheld[o] {
+					return "merge-gap-inside-reply"
+				}
+			}
+		}
+		break
+	}
 	if sc.Server && sc.Rec {
 		return "serverside-recover-since"
 	}
@@ -1122,9 +1141,55 @@ func c01Corpus() []*c01Script {
 		{Pos: true, Rec: true, SinceDelta: 0, SinceEp: 1, Phase: c01Phases(map[int][]c01Op{0: c01Ops(P(false), D(0)), 3: c01Ops(P(false), D(0), P(false), drop(0), P(true), D(0)), 6: c01Ops(P(false), D(0))})},
 		// 17: wrong epoch requested
 		{Pos: true, Rec: true, SinceDelta: 0, SinceEp: 2, Phase: c01Phases(map[int][]c01Op{0: c01Ops(P(false), D(0)), 6: c01Ops(P(false), D(0))})},
+		// 19 (appended below): leading filtered offsets in history + PUB/SUB losses before a buffered publication
 		// 18: close, then deliveries
 		{Pos: true, Close: true, Phase: c01Phases(map[int][]c01Op{6: c01Ops(P(false), D(0)), 8: c01Ops(P(false), D(0))})},
+		// 19: two leading filtered offsets in the recovered range, then two deliveries lost after the
+		// history read and a later one buffered: the merge must refuse (hole 4,5 between 3 and 6)
+		{Pos: true, Rec: true, SinceDelta: -100, SinceEp: 1, Phase: c01Phases(map[int][]c01Op{0: c01Ops(P(true), P(true), P(false), D(0), D(0), D(0)), 3: c01Ops(P(false), P(false), P(false), drop(0), drop(0), D(0))})},
+		// 20: same with a duplicated filtered marker (dup fault) instead of two distinct ones
+		{Pos: true, Rec: true, SinceDelta: -100, SinceEp: 1, Phase: c01Phases(map[int][]c01Op{0: c01Ops(P(true), P(false), D(1)), 3: c01Ops(c01Op{K: "dup", I: 0}, D(0), D(0), P(false), P(false), P(false), drop(0), drop(0), D(0))})},
+		// 21: server side, same shape
+		{Server: true, Pos: true, Rec: true, SinceDelta: -100, SinceEp: 1, Phase: c01Phases(map[int][]c01Op{0: c01Ops(P(true), P(true), P(false), D(0), D(0), D(0)), 3: c01Ops(P(false), P(false), P(false), drop(0), drop(0), D(0))})},
 	}
+}
+
+// a random script of the shape "filtered offsets early in the recovered range, losses right
+// after the history read, a later publication buffered"
+func c01ShapedScript(r *rand.Rand) *c01Script {
+	sc := &c01Script{Server: r.Intn(3) == 0, Pos: true, Rec: true, SinceDelta: -100, SinceEp: 1}
+	sc.Phase = make([][]c01Op, 9)
+	nf := 1 + r.Intn(3)
+	var p0 []c01Op
+	for k := 0; k < nf; k++ {
+		p0 = append(p0, c01P(true))
+	}
+	for k := 0; k < 1+r.Intn(2); k++ {
+		p0 = append(p0, c01P(r.Intn(4) == 0))
+	}
+	n0 := len(p0)
+	if r.Intn(3) == 0 {
+		p0 = append(p0, c01Op{K: "dup", I: 0}) // a duplicated filtered marker, delivered into the window below
+	}
+	for k := 0; k < n0; k++ {
+		p0 = append(p0, c01D(0))
+	}
+	sc.Phase[0] = p0
+	lost := 1 + r.Intn(nf+1)
+	var p3 []c01Op
+	if len(p0) > 2*n0 { // the duplicate is still in flight: deliver it into the buffer
+		p3 = append(p3, c01D(0))
+	}
+	for k := 0; k <= lost; k++ {
+		p3 = append(p3, c01P(r.Intn(6) == 0))
+	}
+	for k := 0; k < lost; k++ {
+		p3 = append(p3, c01Op{K: "drop", I: 0})
+	}
+	p3 = append(p3, c01D(0))
+	sc.Phase[3] = p3
+	sc.Phase[6] = c01RandOps(r, r.Intn(4), false)
+	return sc
 }
 
 func c01RunCase(t *testing.T, w *verifW, i int, sc *c01Script, class string) {
@@ -1191,6 +1256,8 @@ func TestVerifC01(t *testing.T) {
 			if sc.Phase == nil {
 				sc.Phase = make([][]c01Op, 9)
 			}
+		} else if r.Intn(8) == 0 {
+			sc = c01ShapedScript(r)
 		} else {
 			sc = c01RandScript(r, r.Intn(12) != 0, false)
 		}
